@@ -401,13 +401,13 @@ def run_shard(shard: dict[str, Any]) -> core.ShardResult:
                             continue
                         for emap, merge in ((0, False), (1, False), (2, False), (0, True)):
                             for split in (False, True):
-                                if emap == 2 and tier == "quick" and (flt != "none" or nan_col == 2):
-                                    continue  # stddev on the FIRST objective (the column failure detection reads): unfiltered in quick
+                                if emap == 2 and (flt != "none" or (tier == "quick" and nan_col == 2)):
+                                    continue  # stddev on the FIRST objective (the column failure detection reads): unfiltered
                                 if merge and tier == "quick" and (nan_col == 2 or flt == "cvar"):
                                     continue
                                 if tier == "quick" and R * (P + 1) >= 9 and (nan_col == 1 or (emap == 1 and flt == "cvar")):
                                     continue  # quick: thin the largest shape (full in thorough)
-                                for wkind in (("ramp", "zero", "tiny") if R > 1 and (tier == "thorough" or (nan_col == 0 and flt == "none")) else ("ramp",)):
+                                for wkind in (("ramp", "zero", "tiny") if R > 1 and nan_col == 0 and flt == "none" else (("ramp", "zero") if R > 1 and tier == "thorough" else ("ramp",))):
                                   case = {"R": R, "P": P, "subset": subset, "nan_col": nan_col, "rms": rms, "pms": pms, "weights": wkind,
                                         "filter": flt, "emap": emap, "merge": merge, "split": split, "seed": shard["seed"],
                                         "step": nan_col == 0, "differential": not split}
